@@ -116,7 +116,13 @@ def check(ctx):
     ctx.require(L3, n_acc == 1 and n_ep == 1, "%s:%s" % (rc.file, rc.line),
                 "request_certificate takes exactly one AccountSync and one EndpointSync (found %d, %d)" % (n_acc, n_ep), [RC, "handles"])
     rcc = prog.async_body(RC)
-    for b in [rcc] + [x for x in prog.bodies.values() if x.root == RC and x.key != rcc.key and x.key != RC]:
+    from ..util import effective_owner
+
+    def owned_by_rc(k):
+        base = k.split("::{closure")[0]
+        return base != RC and prog.absorbed(base) and effective_owner(prog, k) <= {RC}
+    # closures of request_certificate, and closures of new helpers that only request_certificate uses (inlined there)
+    for b in [rcc] + [x for x in prog.bodies.values() if (x.root == RC and x.key != rcc.key and x.key != RC) or (x.kind == "Closure" and owned_by_rc(x.key) and not prog.absorbed(x.key))]:
         for c, a in direct_acquisitions(b):
             sl = arg_origins(c, 0)
             # receiver: upvar 1 (account_s) / upvar 2 (endpoint_s) of the fn's coroutine, or a capture of them in async blocks
@@ -127,8 +133,7 @@ def check(ctx):
     for k in direct:
         b = prog.bodies[k]
         if b.crate == "acmed" and b.root != RC:
-            from ..util import effective_owner
-            if prog.absorbed(k) and effective_owner(prog, k) <= {RC}:
+            if owned_by_rc(k):
                 # a new helper used only by request_certificate and inlined there: its acquisitions were checked above
                 # (receiver rule on the helper-transparent view; order rules through the may-acquire summaries)
                 continue
